@@ -5,7 +5,6 @@ package main
 
 import (
 	"fmt"
-	"math"
 	"strconv"
 	"strings"
 	"sync"
@@ -255,13 +254,22 @@ func init() {
 				var b int64
 				for n := lo + int64(w); n < hi; n += W {
 					for _, k := range []int{2, 3} {
-						// the expression the package evaluates
-						v := math.Floor(float64(time.Duration(n)) / float64(time.Millisecond) / float64(math.Pow(10, 3-float64(k))))
+						// the real formatter: fraction digits of an instant n ns into a second
+						s := astisub.VerifFormatDuration(time.Duration(n), ".", k)
 						div := int64(1000000)
 						if k == 2 {
 							div = 10000000
 						}
-						if int64(v) != n/div {
+						v := n / div
+						ok := len(s) == 9+k && s[:9] == "00:00:00."
+						if ok {
+							for j, p := k-1, v; j >= 0; j, p = j-1, p/10 {
+								if s[9+j] != byte('0'+p%10) {
+									ok = false
+								}
+							}
+						}
+						if !ok {
 							b++
 						}
 					}
@@ -278,8 +286,8 @@ func init() {
 			c.do("ts.fracsweep 0 1000000000")
 		} else {
 			r := newRng(c.seed, "ts.fracsweep")
-			lo := r.rangeI(0, 1000000000-50000000)
-			c.do(fmt.Sprintf("ts.fracsweep %d %d", lo, lo+50000000))
+			lo := r.rangeI(0, 1000000000-5000000)
+			c.do(fmt.Sprintf("ts.fracsweep %d %d", lo, lo+5000000))
 			c.do("ts.fracsweep 0 2000000")
 			c.do("ts.fracsweep 998000000 1000000000")
 		}
